@@ -12,6 +12,9 @@
      SPRJ D d tol <P D*d> <m D> <x D> <y d>         -> T | F | ILL  (is_projection_tol_b)
      SMEA N D tol <X N*D> <m D>                     -> T | F | ILL  (training_mean_tol_b)
      SAFF d tol a <fx d> <fy d> <fz d>              -> T | F | ILL  (affine_tol_b)
+     SPRR D d eps <P D*d> <m D> <x D> <y d>         -> T | F | ILL  (is_projection_rel_b: tolerance relative to the
+                                                       output, |y_c - s_c| <= eps * sum_t |P t c| |x t - m t|)
+     SOUR N D d eps <X N*D> <Y N*d> <P D*d> <m D>   -> T | F | ILL  (rows_rel_b: the same for every row of Y)
    Any malformed line -> "ERR <reason>". *)
 open C07_model
 
@@ -144,6 +147,14 @@ let () =
               let dd = int_ () in let d = int_ () in let tol = q_ () in
               let p = mat dd d in let m = vec dd in let x = vec dd in let y = vec d in
               show_ob (c07_spec_proj (nat_of_int dd) (nat_of_int d) tol p m x y)
+            | "SPRR" ->
+              let dd = int_ () in let d = int_ () in let eps = q_ () in
+              let p = mat dd d in let m = vec dd in let x = vec dd in let y = vec d in
+              show_ob (c07_spec_proj_rel (nat_of_int dd) (nat_of_int d) eps p m x y)
+            | "SOUR" ->
+              let n = int_ () in let dd = int_ () in let d = int_ () in let eps = q_ () in
+              let x = mat n dd in let y = mat n d in let p = mat dd d in let m = vec dd in
+              show_ob (c07_spec_rows_rel (nat_of_int n) (nat_of_int dd) (nat_of_int d) eps x y p m)
             | "SMEA" ->
               let n = int_ () in let dd = int_ () in let tol = q_ () in
               let x = mat n dd in let m = vec dd in
